@@ -168,11 +168,20 @@ def gen_case(rng, it):
                 # lower-case keys with punctuation (units, versions, ratios)
                 key = ["model.version", "area(km2)", "q95%", "rain/pet", "a-b", "x.y.z",
                        "p[mm]", "t+1"][(it // 7) % 8]
+            if it % 7 == 5 and k == 0:
+                # keys that begin or end like the entries the writer adds itself
+                key = ["author_orcid", "ncolours", "nrows_raw", "source_file_version",
+                       "time_generated_utc", "authors", "ncol2", "my_author", "nrow_",
+                       "sub_source_file"][(it // 7) % 10]
             if key not in RESERVED and key not in comments and \
                     not key.startswith("comment"):
                 break
         kind = "dashes" if (it % 23 == 0 and k == 0) else "regular"
         comments[key] = rand_comment_value(rng, kind)
+        if it % 5 == 2 and k == 0:
+            # a value that quotes its own key (and the key : value separator)
+            comments[key] = [f"see {key} : 410730", f"{key}: {key} : {key}",
+                             f"old {key} : x, new {key} : y", f"{key} :"][(it // 5) % 4]
     mode = ["plain", "zip-x.csv", "zip-x.zip", "zip-noext", "zip-dotted",
             "archive"][it % 6]
     fmt = ["%0.5f", "%0.5f", "%0.2f", "%0.10e", None][int(rng.integers(0, 5))]
